@@ -230,6 +230,7 @@ type TxRec struct {
 	Header []byte
 	Body   []byte
 	T      time.Time // when the pipe's SendMsg returned
+	T0     time.Time // when the protocol called the pipe's SendMsg (for a held send: before it was parked)
 }
 
 type sendReq struct {
@@ -304,6 +305,7 @@ func (p *VPipe) RecvMsg() *mangos.Message {
 }
 
 func (p *VPipe) SendMsg(m *mangos.Message) error {
+	t0 := time.Now()
 	p.mu.Lock()
 	if p.Closed {
 		p.mu.Unlock()
@@ -325,7 +327,7 @@ func (p *VPipe) SendMsg(m *mangos.Message) error {
 				_ = p.Close()
 				return e
 			}
-			p.logTx(m)
+			p.logTx(m, t0)
 			m.Free()
 			return nil
 		case <-p.closeQ:
@@ -333,14 +335,14 @@ func (p *VPipe) SendMsg(m *mangos.Message) error {
 		}
 	}
 	p.mu.Unlock()
-	p.logTx(m)
+	p.logTx(m, t0)
 	m.Free()
 	return nil
 }
 
-func (p *VPipe) logTx(m *mangos.Message) {
+func (p *VPipe) logTx(m *mangos.Message, t0 time.Time) {
 	p.Net.mu.Lock()
-	p.Net.Tx = append(p.Net.Tx, TxRec{p.Id, append([]byte{}, m.Header...), append([]byte{}, m.Body...), time.Now()})
+	p.Net.Tx = append(p.Net.Tx, TxRec{p.Id, append([]byte{}, m.Header...), append([]byte{}, m.Body...), time.Now(), t0})
 	p.Net.mu.Unlock()
 }
 
